@@ -348,7 +348,9 @@ void SPxBasisBase<R>::loadDesc(const Desc& ds)
 template <class R>
 void SPxBasisBase<R>::setRep()
 {
-   assert(theLP != nullptr);
+   // no LP is loaded (e.g. after clear() or a failed read); load() sets the representation again
+   if(theLP == nullptr)
+      return;
 
    reDim();
    minStab = 0.0;
